@@ -90,6 +90,14 @@ func (w *diffWorld) do(op model.Op) (bool, *failure) {
 	}
 	r1.Err, r2.Err = norm(r1.Err), norm(r2.Err)
 	c1, c2 := resultCanon(op, r1), resultCanon(op, r2)
+	// open finding F-V2EMPTY: the v2 client returns empty lists / maps as NULL.
+	// The v1 client returns them faithfully, so "the v1 response holds an empty
+	// list or map" identifies exactly the responses that finding distorts; for
+	// those only the internal states are compared.
+	if c1 != c2 && open("F-V2EMPTY") && resultHasEmptyLM(r1) {
+		stats.For("C17").Exclude("F-V2EMPTY")
+		c2 = c1
+	}
 	if c1 != c2 {
 		return false, newFail("clients disagree", "%s: v1 %s (%s) v2 %s (%s)", op.Kind, c1, r1.ErrText, c2, r2.ErrText)
 	}
@@ -106,6 +114,18 @@ func (w *diffWorld) do(op model.Op) (bool, *failure) {
 		w.m = next
 	}
 	return r1.Err != "", nil
+}
+
+func resultHasEmptyLM(r model.Result) bool {
+	if hasEmptyLM(r.Item) || hasEmptyLM(r.CondItem) {
+		return true
+	}
+	for _, it := range r.Items {
+		if hasEmptyLM(it) {
+			return true
+		}
+	}
+	return false
 }
 
 // resync rebuilds the guidance model's table contents from client v1.
